@@ -766,6 +766,80 @@ pub(crate) fn parse_matcher<'data>(
     ))
 }
 
+/// A canonical, line-based rendering of what parsing `data` as a version script produces: `R` and the global names for
+/// a rustc-style script, otherwise one `v` line per version followed by its global and local rules; `E glob` / `E other`
+/// for an error.
+#[cfg(feature = "verif_hooks")]
+pub(crate) fn verif_dump_version_script(data: &[u8]) -> String {
+    use std::fmt::Write as _;
+    let script = match parse_version_script.parse(BStr::new(data)) {
+        Ok(script) => script,
+        Err(e) => return verif_error_kind(&e.to_string()),
+    };
+    let mut out = String::new();
+    match script {
+        VersionScript::Rust(r) => {
+            out.push('R');
+            for g in &r.global {
+                let _ = write!(out, " {}", verif_hex(g));
+            }
+            out.push('\n');
+        }
+        VersionScript::Regular(r) => {
+            for v in &r.versions {
+                let _ = writeln!(
+                    out,
+                    "v {} {}",
+                    verif_hex(v.name),
+                    v.parent_index.map_or_else(|| "-".to_owned(), |p| p.to_string())
+                );
+                verif_dump_rules(&mut out, "g", &v.version_body.globals);
+                verif_dump_rules(&mut out, "l", &v.version_body.locals);
+            }
+        }
+    }
+    out
+}
+
+#[cfg(feature = "verif_hooks")]
+pub(crate) fn verif_error_kind(message: &str) -> String {
+    if message.contains("Invalid glob pattern") || message.contains("Invalid utf-8 string") {
+        "E glob\n".to_owned()
+    } else {
+        "E other\n".to_owned()
+    }
+}
+
+#[cfg(feature = "verif_hooks")]
+fn verif_hex(bytes: &[u8]) -> String {
+    if bytes.is_empty() {
+        return "-".to_owned();
+    }
+    bytes.iter().map(|b| format!("{b:02x}")).collect()
+}
+
+#[cfg(feature = "verif_hooks")]
+pub(crate) fn verif_dump_rules(out: &mut String, tag: &str, rules: &MatchRules) {
+    use std::fmt::Write as _;
+    for (kind, basic) in [("general", &rules.general), ("cxx", &rules.cxx)] {
+        let mut exact: Vec<String> = basic.exact.iter().map(|n| verif_hex(n.bytes())).collect();
+        exact.sort();
+        let mut escaped: Vec<String> = basic.escaped_exact.iter().map(|n| verif_hex(n)).collect();
+        escaped.sort();
+        let star: Vec<String> = basic.star_globs.iter().map(|p| verif_hex(p.as_str().as_bytes())).collect();
+        let nonstar: Vec<String> = basic.nonstar_globs.iter().map(|p| verif_hex(p.as_str().as_bytes())).collect();
+        let _ = writeln!(
+            out,
+            "{tag} {kind} x={} e={} s={} n={} a={}",
+            exact.join(","),
+            escaped.join(","),
+            star.join(","),
+            nonstar.join(","),
+            u8::from(basic.matches_all)
+        );
+    }
+}
+
 /// Consumes `exact` from `input` or returns false if that's not what is next.
 fn try_take(input: &mut &BStr, mut exact: &[u8]) -> bool {
     let result: Result<_, ContextError> = exact.parse_next(input);
